@@ -67,19 +67,26 @@ WellFormedB(cl, creg, mr, k2, sr) ==
     /\ k2 = "obj" => mr.m = 0             \* m matters only as the name that pulls the member in
     /\ (mr.c = 1 \/ sr.c = 1) => (cl[1] \/ cl[2] \/ creg # 0)   \* a strong reference has a definition
 
-InitB(PermSet, MS1, MS2, MC, MM, K2, SS2, SC) ==
-    \E perm \in PermSet, a \in [1..2 -> BOOLEAN], cl \in [1..2 -> BOOLEAN], creg \in 0..2, k2 \in K2 :
-    \E ms1 \in MS1, ms2 \in MS2, mc \in MC, mm \in MM, ss2 \in SS2, sc \in SC :
-       LET mr == [s1 |-> ms1, s2 |-> ms2, c |-> mc, m |-> mm]
+InitB(PermSet, AS, CLS, MS1, MS2, MC, MK, SS2, SC) ==
+    \E perm \in PermSet, a \in AS, cl \in CLS, creg \in 0..2, mk \in MK :
+    \E ms1 \in MS1, ms2 \in MS2, mc \in MC, ss2 \in SS2, sc \in SC :
+       LET mr == [s1 |-> ms1, s2 |-> ms2, c |-> mc, m |-> mk[1]]
            sr == [s1 |-> 0, s2 |-> ss2, c |-> sc]
-       IN WellFormedB(cl, creg, mr, k2, sr) /\ InitWith(MkB(perm, a, cl, creg, mr, k2, sr))
+       IN WellFormedB(cl, creg, mr, mk[2], sr) /\ InitWith(MkB(perm, a, cl, creg, mr, mk[2], sr))
+
+BB == [1..2 -> BOOLEAN]
+(* (reference of main.o to m, kind of the second file) *)
+MK3 == {<<0, "obj">>, <<0, "member">>, <<1, "member">>}
+MK4 == MK3 \cup {<<2, "member">>}
 
 Perms4 == Perms(1..4)
 (* main.o before the second regular file *)
 Perms4MainFirst == {p \in Perms4 : (CHOOSE i \in 1..4 : p[i] = 1) < (CHOOSE i \in 1..4 : p[i] = 2)}
 
-InitBQuick == InitB(Perms4MainFirst, 0..2, {0, 1}, 0..2, {0, 1}, {"obj", "member"}, 0..2, 0..2)
-InitBFull == InitB(Perms4, 0..2, {0, 1}, 0..2, 0..2, {"obj", "member"}, 0..2, 0..2)
+(* quick: main.o before the second file, at least one library under --as-needed *)
+InitBQuick == InitB(Perms4MainFirst, BB \ {<<FALSE, FALSE>>}, BB \ {<<FALSE, TRUE>>}, {0, 1}, {0}, 0..2, MK3, {0, 1}, {0, 1})
+InitBFull == InitB(Perms4, BB, BB, 0..2, {0}, 0..2, MK4, 0..2, 0..2)
+InitBTiny == InitB({<<3, 1, 4, 2>>, <<1, 3, 2, 4>>}, BB, BB, {0, 1}, {0}, {0, 1}, MK3, {0}, {0, 1})
 
 -----------------------------------------------------------------------------
 (* Family C: three libraries and main.o; DT_NEEDED order over three entries, c defined by any
@@ -107,11 +114,14 @@ InitC(MS3) ==
        /\ InitWith(MkC(perm, a, cl, creg, mr))
 
 -----------------------------------------------------------------------------
-InitQuick == InitA(4) \/ InitBQuick
+InitQuick == InitA(3) \/ InitBQuick
 InitThorough == InitA(5) \/ InitBFull \/ InitC({0, 1})
 SpecQuick == SpecFrom(InitQuick)
+SpecLive == SpecFrom(InitA(2) \/ InitBTiny)
 SpecThorough == SpecFrom(InitThorough)
 
 (* anti-vacuity: a broken declarative rule ("every library is needed") must be refuted *)
 BrokenRuleHolds == pc = "done" => result = SelectSeq(OrderDecl, LAMBDA f : Kind(f) = "lib")
+(* anti-vacuity: without the deviation class the operational model must NOT conform everywhere *)
+StrictConforms == pc = "done" => ConformsD(Decl)
 =============================================================================
